@@ -168,7 +168,7 @@ Proof.
   - destruct (i =? 0) eqn:Ei.
     + exists []. split; [apply cres_ok_nil|reflexivity].
     + exists [code_reject; i; 2; 0; 0; 0]. split.
-      * apply (cres_ok_put (SSig ss)); auto. unfold len. simpl. lia.
+      * apply (cres_ok_put (SSig ss)); [assumption | unfold len; simpl; lia].
       * cbn [reply_opt]. rewrite list_eqb_refl. reflexivity.
 Qed.
 
